@@ -71,7 +71,19 @@ def parseTypeDef (j : Json) : Except String TypeDef := do
       match (← c.getArr?).toList with
       | [n, t] => pure ((← n.getStr?), (← optStr t))
       | _ => throw "comparer"
-    pure (.struct { fields := fields, inherited := ← (← j.getObjVal? "inherited").getNat?,
+    let consts ← match j.getObjVal? "consts" with
+      | .ok a => (← a.getArr?).toList.mapM fun c => do
+        match (← c.getArr?).toList with
+        | [n, t, v] => pure ((← n.getStr?), (← t.getStr?), (match v.getStr? with | .ok s => s | .error _ => v.compress))
+        | _ => throw "consts"
+      | .error _ => pure []
+    let inits ← match j.getObjVal? "initializers" with
+      | .ok a => (← a.getArr?).toList.mapM fun c => do
+        match (← c.getArr?).toList with
+        | [k, v] => pure ((← k.getStr?), (← v.getStr?))
+        | _ => throw "initializers"
+      | .error _ => pure []
+    pure (.struct { consts := consts, inits := inits, fields := fields, inherited := ← (← j.getObjVal? "inherited").getNat?,
                     base := ← optStr (← j.getObjVal? "base"), abstract := ← (← j.getObjVal? "abstract").getBool?,
                     disc := ← strs "disc", discValues := dv, comparer := cmp })
   | s => throw s!"typedef {s}"
